@@ -423,6 +423,7 @@ class SchedRig(object):
     def do_complete(self, uid):
         if uid in self.started and uid not in self.completed and uid in self.pushed:
             self.completed.add(uid)
+            self.log('Complete', uid=uid)
             self.parent.unschedule_cb(rpc.AGENT_UNSCHEDULE_PUBSUB, copy.deepcopy(self.pushed[uid]))
 
     def do_env(self, act):
@@ -432,6 +433,9 @@ class SchedRig(object):
         elif k == 'cancelc' : self.do_cancelc(act[1])
         elif k == 'flush'   : self.do_flush()
         elif k == 'complete': self.do_complete(act[1])
+        elif k == 'complete_all':
+            for u in sorted(self.started - self.completed):
+                self.do_complete(u)
         elif k == 'named_env':
             self.child._control_cb(rpc.CONTROL_PUBSUB, {'cmd': 'register_named_env',
                                                         'arg': {'env_name': act[1]}})
@@ -482,7 +486,7 @@ class SchedRig(object):
         self.point('sleep')
         drained = (not self.held_put and self.c_items_pending == 0
                    and not any(f == self.child._CANCEL for _, f in self.qS.items))
-        self.log('Sleep', quiet=True, cancel_drained=bool(drained))
+        self.log('Sleep', quiet=True, cancel_drained=bool(drained), qu_empty=not self.qU.items)
         # drive to an end: once the script / random env is exhausted, push
         # remaining obligations (flush, completions) so runs end quiescent
         self.in_env = True
